@@ -96,6 +96,12 @@ def pool(tier):
                    ('Q', [Lambda(xA, Eq(xA, yA)), Lambda(xSA, Eq(xSA, ySA)), P(A), Lambda(yA, P(A)(xA))])):
         for t in ts:
             insts.append({nm: t})
+    # free-variable instantiations (Inst.var_inst, used by the veriT reconstruction): keys 'V:<name>'
+    for nm, ts in (('x', [yA, Var('c', A), Comb(Var('f', TFun(A, A)), xA), sxA, Var('c', B)]), ('p', [Const('false', BoolType), SVar('q', BoolType), Not(Var('p', BoolType))]),
+                   ('y', [xA])):
+        for t in ts:
+            insts.append({'V:' + nm: t})
+    insts.append({'V:x': yA, 'x': xA})
     insts.append({'x': Var('c', B), 'y': Var('d', B)})
     insts.append({'x': yA, 'y': xA})
     tyinsts = [{'a': B}, {'a': BoolType}, {'a': A}]
@@ -133,7 +139,12 @@ def mk_arg(a, p):
         return p['terms'][i]
     if tag == 'ty':
         return TyInst(**p['tyinsts'][i])
-    return Inst(**p['insts'][i])
+    d = p['insts'][i]
+    inst = Inst(**{k: v for k, v in d.items() if not k.startswith('V:')})
+    for k, v in d.items():
+        if k.startswith('V:'):
+            inst.var_inst[k[2:]] = v
+    return inst
 
 
 def first_steps(p):
